@@ -41,6 +41,9 @@ SNIPPETS = [
     "select 'Str', str, STR from t -- Comment Here", "SELECT a AS Foo, b as fOO FROM t /* Block Comment */", "select Count(*), COUNT(a), count(b) from T",
     "SELECT CAST(a AS Int), cast(b as VARCHAR(10)) FROM t", "select TRUE, false, Null, nULL from t", "SELECT `Tick`, [Brack], tick FROM t", "select myCol, my_col, MyCol, MY_COL from t",
     "SELECT a.Foo, A.foo, a.FOO FROM a", "select e'Esc', E'esc', x'AB', X'ab' from t", "Select Current_Date, CURRENT_TIMESTAMP, current_time", "SELECT $1, :Param, @Var, ?", "select 1E5, 1e5, 0xFF, 0Xff",
+    'create table t (a int, b "MySchema"."MyType", c "Mixed Case")', 'select a::"MyType", b::"myschema"."MyType" from t', 'select cast(a as "MyType") from t',
+    "create table t (a [dbo].[MyType], b [MyType])", "select cast(a as `MyType`) from t", 'create table "T1" ("Col A" Int, "colB" "Custom_Type")',
+    "select a double /* Keep Me */ precision from t", "create table t (a Double Precision -- Keep Me\n, b INT)", "select `myFunc`(a), \"MyFunc\"(b) from t",
 ]
 
 
